@@ -31,6 +31,13 @@ def plan(tier):
     for m in client.public_methods():
         pl.units.append(U("method.%s" % m, "contracts.typestate", "h_public_method", (m,),
                           setup=("contracts.typestate", "setup"), replay=("contracts.client_replay", "replay_typestate")))
+    from contracts import capabilities as K
+    for i, sh in enumerate(K.SHAPES):
+        pl.units.append(U("K.get_capabilities.shape%d.OK" % i, "contracts.capabilities", "h_get_capabilities", (sh, "OK"),
+                          setup=("contracts.capabilities", "setup"), native_ok=True, sample_models=True))
+    for st in ("NO", "BYE"):
+        pl.units.append(U("K.get_capabilities.shape1.%s" % st, "contracts.capabilities", "h_get_capabilities", (K.SHAPES[1], st),
+                          setup=("contracts.capabilities", "setup"), native_ok=True, sample_models=True))
     pl.static = [static_frames]
 
     def bounded_caps(tier, seed):
@@ -40,17 +47,17 @@ def plan(tier):
     pl.bounded = [bounded_caps]
 
     def lf(u, label):
-        return label.startswith(("A1.", "A2.", "T.", "callee-precondition.")) or ".loop" in label
+        return label.startswith(("A1.", "A2.", "T.", "K.", "callee-precondition.")) or ".loop" in label
 
     pl.label_filter = lf
-    pl.functions = [("sievelib.managesieve", "authentication_required"), ("sievelib.managesieve", "Client.connect"),
+    pl.functions = [("sievelib.managesieve", "Client.__get_capabilities"), ("sievelib.managesieve", "authentication_required"), ("sievelib.managesieve", "Client.connect"),
                     ("sievelib.managesieve", "Client.__starttls"), ("sievelib.managesieve", "Client.__authenticate"),
                     ("sievelib.managesieve", "Client._plain_authentication"),
                     ("sievelib.managesieve", "Client._login_authentication"),
                     ("sievelib.managesieve", "Client._oauthbearer_authentication"),
                     ("sievelib.managesieve", "Client._digest_md5_authentication")] + \
                    [("sievelib.managesieve", "Client.%s" % m) for m in client.public_methods()]
-    pl.trusted = [common.TRUSTED_ENV_SOCKET, common.TRUSTED_SERVER, common.ASSUMED_GET_CAPABILITIES + " -- bounded-checked on every run (all subsets of the known capabilities, labelled bounded)",
+    pl.trusted = [common.TRUSTED_ENV_SOCKET, common.TRUSTED_SERVER, common.ASSUMED_GET_CAPABILITIES,
                   "ssl: create_default_context().wrap_socket returns a new socket (ghost tls := True) or raises ssl.SSLError",
                   "contract of Client.__send_command (one command, one reply; proved separately under C08.W3/C15.I)",
                   "listscripts' line regex is over-approximated by `None or a match with arbitrary groups` (sound for typestate)"]
@@ -62,5 +69,9 @@ def plan(tier):
         "current connection`, every path re-establishes the invariant; the contract of __send_command carries the "
         "obligations `script verb => authenticated` and `AUTHENTICATE after STARTTLS request => TLS established and "
         "capabilities re-read`, so they are checked at every call site on every path; unauthenticated script calls "
-        "raise Error with an empty outbound log.")
+        "raise Error with an empty outbound log. K -- the contract of __get_capabilities the typestate proof relies on is itself "
+        "discharged on shaped capability listings: the real __get_capabilities / __read_response / __read_line (reader loops "
+        "summarised by their C05 contracts) on 7 listing shapes of quoted names (known, unknown, repeated, with and without a "
+        "value) with SYMBOLIC values, plus NO and BYE: stored entries are exactly the last announced values, nothing else "
+        "changes, NO changes nothing, BYE raises Error; and bounded-checked over all subsets of the known capabilities.")
     return pl
